@@ -1,11 +1,11 @@
 package main
 
 import (
-	"golang.org/x/tools/go/ssa"
-	"go/types"
 	"bytes"
 	"context"
 	"fmt"
+	"go/types"
+	"golang.org/x/tools/go/ssa"
 	"os"
 	"os/exec"
 	"path/filepath"
@@ -75,7 +75,9 @@ func (e *Engine) preludeFor(text string) string {
 		fmt.Fprintf(&sb, "(assert (forall ((x %s)) (! (= (unbox_%s (box_%s x)) x) :pattern ((box_%s x)))))\n", s, tag, tag, tag)
 	}
 	sb.WriteString("(declare-fun box_ptr (Int Int) Int)\n(declare-fun unbox_ptr_obj (Int) Int)\n(declare-fun unbox_ptr_off (Int) Int)\n")
-	sb.WriteString("(assert (forall ((o Int) (f Int)) (! (and (= (unbox_ptr_obj (box_ptr o f)) o) (= (unbox_ptr_off (box_ptr o f)) f)) :pattern ((box_ptr o f)))))\n")
+	if text == "" || strings.Contains(text, "box_ptr") {
+		sb.WriteString("(assert (forall ((o Int) (f Int)) (! (and (= (unbox_ptr_obj (box_ptr o f)) o) (= (unbox_ptr_off (box_ptr o f)) f)) :pattern ((box_ptr o f)))))\n")
+	}
 	// map slots (injective)
 	var sl []string
 	for n := range slotFns {
@@ -120,7 +122,7 @@ func (e *Engine) preludeFor(text string) string {
 	for _, hs := range heapSorts {
 		fmt.Fprintf(&sb, "(declare-const FG_%s %s)\n", sortTag(hs), heapSort(hs))
 	}
-	sb.WriteString(e.extraPrelude())
+	sb.WriteString(e.extraPrelude(text))
 	return sb.String()
 }
 
